@@ -256,8 +256,13 @@ class Summaries:
             args = t.get("args", [])
             if f == PROBE and args:
                 r = pa.rpath(op_place(args[0]))
-                if r and r[0] == param_root:
-                    probes.append(bi)
+                # the probe must be repeated (inside a loop): one seek_danger alone restores nothing
+                in_loop = bi in body.reachable(tuple(body.succ(bi)))
+                if r and r[0] == param_root and in_loop:
+                    tests = result_tests(self.prog, body, [bi])
+                    # ... and the function leaves the loop through the Found arm of that probe
+                    if any(tt[0] == bi and tt[1] for tt in tests.values()):
+                        probes.append(bi)
             elif (t.get("res") or f) in self.prog.bodies and args:
                 callee = t.get("res") or f
                 for k, a in enumerate(args):
